@@ -38,4 +38,25 @@ CHECKS = {
             'in-repo caller does'],
         'probes': [],
     },
+    'C05': {
+        'families': [['c05:fail', 1.0], ['c05:stop', 1.0], ['c05:timeout', 0.5]],
+        'runs': {'quick': 30000, 'thorough': 1500000},
+        'budget': {'quick': 100, 'thorough': 1500},
+        'level': 'fault_enumeration',
+        'rule': ('each evaluation is one simulated execution of the real IteratorQueue with one injected '
+                 'fault: (fail) producer p raises after i items, (p, i) drawn uniformly over all positions of '
+                 'the drawn workload; (stop) maybe_stop()/maybe_stop(exc) issued by an extra thread after a '
+                 'drawn number of scheduling steps or as soon as a producer is blocked in put / a consumer is '
+                 'waiting; (timeout) a peer that stops producing/consuming with timeout configured. '
+                 'Non-trivial = the fault actually fired and the run had more than two context switches; '
+                 'distinct = distinct event-log digests'),
+        'real': REAL_COMMON,
+        'stub': STUB_COMMON,
+        'assumptions': ASSUME_COMMON + [
+            'a stop request is issued only after every producer has registered with the queue '
+            '(a producer that starts after a plain stop is not part of this check)',
+            'no upper bound on when a timeout fires is asserted (get/put restart their full timeout '
+            'after every notification); only that it fires, and not before the configured time'],
+        'probes': ['probe:stop_while_producer_blocked', 'probe:stop_while_consumer_blocked'],
+    },
 }
